@@ -408,10 +408,10 @@ def check_estimators(run, A):
                   f'`{norm_stmt(den.node)[:80]}`: the floor of the MM weight divisor is not a small multiple of the smallest float; wherever it exceeds z^H B^-1 z the update is no '
                   f'longer the Tyler / MM step (e.g. covariance_norm=False, where eigenvalues are not bounded by one)', construct=f'R-SAN::{q}::quadratic-form-floor')
     # factor D = y.shape[-2] multiplies the contraction
-    parent = [t for e in g.events if e.term is not None for t in walk_terms(e.term) if t.op == 'binop' and t.args[0] == 'Mult' and (t.args[1] is s.term or t.args[2] is s.term)]
+    parent = [t for e in g.events if e.term is not None for t in walk_terms(e.term) if t.op in ('binop', 'iop') and t.args[0] == 'Mult' and (strip_views(t.args[1]) is s.term or strip_views(t.args[2]) is s.term)]
     okd = False
     if parent:
-        other = parent[0].args[1] if parent[0].args[2] is s.term else parent[0].args[2]
+        other = parent[0].args[1] if strip_views(parent[0].args[2]) is s.term else parent[0].args[2]
         o = strip_views(other)
         okd = o.op == 'sub' and const_val(o.args[1]) == -2 and o.args[0].op == 'attr' and o.args[0].args[1] == 'shape' and strip_views(o.args[0].args[0]).op == 'param' \
             and strip_views(o.args[0].args[0]).args[0] == 'y'
